@@ -69,7 +69,9 @@ TraceBBConst == /\ IsEvent("bb_const")
 TracePM == /\ IsEvent("pm")
   /\ LET r == Recs[l]  T == S_(r.to)  exp == PMSeq(r.piece, r.from, T)  n == Len(exp)
      IN Obs(IF_(r.k # "ok" \/ r.has_panics # 0, {<<"C17", "panicked", r.piece, r.from, r.to>>})
-            \cup IF_(r.k = "ok" /\ r.seq # exp, {<<"C17", "iteration", r.piece, r.from, r.to, r.seq>>})
+            \* C17 fixes WHAT is yielded (every move exactly once), not the order; the order of the code is a model-conformance note
+            \cup IF_(r.k = "ok" /\ (S_(r.seq) # S_(exp) \/ Len(r.seq) # n), {<<"C17", "iteration", r.piece, r.from, r.to, r.seq>>})
+            \cup IF_(r.k = "ok" /\ S_(r.seq) = S_(exp) /\ Len(r.seq) = n /\ r.seq # exp, {<<"EXT", "iteration-order", r.piece, r.from, r.to, r.seq>>})
             \cup IF_(r.k = "ok" /\ r.len # n, {<<"C17", "len", r.piece, r.from, r.to, r.len, n>>})
             \cup IF_(r.k = "ok" /\ r.len # PMLen(r.piece, T), {<<"C17", "len-formula", r.len>>})
             \cup IF_(r.k = "ok" /\ r.empty # (n = 0), {<<"C17", "is_empty", r.piece, r.from, r.to, r.empty>>})
